@@ -524,4 +524,404 @@ class C06(Check):
         return corr, oracle, feats, (text if text != "rnbqkbnr/pppppppp/8/8/8/8/PPPPPPPP/RNBQKBNR w KQkq - 0 1" else None)
 
 
-REGISTRY = {c.pid: c for c in [C01, C02, C03, C06, C07, C11, C15]}
+
+# =============================================================================================
+# C19
+# =============================================================================================
+TT_TOK = re.compile(r"(\S+?)\[occ=(\d+),gen=(\d+),hf=(\d+)\]")
+
+
+class C19(Check):
+    pid = "C19"
+    props_module = "TcheranVerif.Props.C19"
+    rule = ("operation sequences insert/probe/new-search/reset/resize on tables of 0..3 MB (thorough: up to 1024 MB), "
+            "keys forced to collide on a few slots (slot + k*n) plus wild 64-bit keys, ages current and stale, runs of "
+            "300 new-search steps; every insert is followed by a probe of the same key so that admission is observable; "
+            "distinct = distinct sequences; non-trivial = contains a slot collision or a stale age")
+
+    def streams(self):
+        req = os.path.join(self.wd, "tt.req")
+        vlib.gen_requests(["tt", self.seed, self.n(400, 6000), "1" if self.tier == "thorough" else "0"], req)
+        yield "tt", req
+
+    @staticmethod
+    def norm(ans):
+        return re.sub(r",hf=\d+\]", "]", ans)
+
+    def judge(self, req, impl, model, spec):
+        f = req.split("\t")
+        mb = int(f[1])
+        ops = f[2].split() if len(f) > 2 else []
+        corr = None
+        if self.norm(impl) != self.norm(model):
+            corr = "table behaviour differs from the model"
+        else:
+            for a, b in zip(TT_TOK.findall(impl), TT_TOK.findall(model)):
+                if abs(int(a[3]) - int(b[3])) > 1:
+                    corr = f"fill indicator {a[3]} vs exact {b[3]}"
+        feats = set()
+        if impl in ("panic", "crash"):
+            return corr, f"transposition table crashes: {req[:300]}", feats, req
+        toks = TT_TOK.findall(impl)
+        if len(toks) != len(ops):
+            return corr or "token count", None, feats, req
+        # property oracle, independent of the model
+        n = mb * 1024 * 1024 // 16
+        slots = {}      # slot -> (key, data tuple, age)
+        gen = 0
+        occ = 0
+        last_insert = None
+        oracle = None
+        for op, (res, o_occ, o_gen, o_hf) in zip(ops, toks):
+            p = op.split(":")
+            o_occ, o_gen, o_hf = int(o_occ), int(o_gen), int(o_hf)
+            if p[0] == "i":
+                key = int(p[1], 16)
+                age = gen if p[5] == "g" else int(p[5])
+                if age != gen:
+                    feats.add("stale-age")
+                data = (p[2], p[3], p[4], str(age), "-" if p[6] == "-" else f"{p[6]}:{p[7]}")
+                last_insert = (key, data)
+            elif p[0] == "g":
+                key = int(p[1], 16)
+                slot = key % n if n else None
+                known = slots.get(slot) if n else None
+                if last_insert and last_insert[0] == key and n:
+                    # admission becomes observable here
+                    ikey, idata = last_insert
+                    stored = res == "hit:" + ":".join(idata)
+                    if known is None:
+                        if not stored:
+                            oracle = f"insert into an empty slot was not stored ({op})"
+                        occ += 1
+                    else:
+                        feats.add("collision")
+                        kkey, kdata = known
+                        if kdata[3] != idata[3] and not stored:
+                            oracle = f"entry from an earlier search did not give way ({op})"
+                        elif kdata[3] == idata[3] and kdata[0] == "E" and idata[0] != "E" and int(idata[2]) <= int(kdata[2]) and stored:
+                            oracle = f"an exact entry was displaced by a shallower non-exact one of the same search ({op})"
+                    if stored:
+                        slots[slot] = (ikey, idata)
+                    known = slots.get(slot)
+                last_insert = None
+                if oracle:
+                    break
+                if res.startswith("hit:"):
+                    if not n or known is None or known[0] != key:
+                        oracle = f"probe {op} returned data although nothing is stored under exactly that key"
+                    elif res != "hit:" + ":".join(known[1]):
+                        oracle = f"probe {op} returned {res}, latest admitted entry is {known[1]}"
+                elif known is not None and known[0] == key:
+                    oracle = f"probe {op} missed although {known[1]} is stored under that key"
+            elif p[0] == "n":
+                gen = (gen + 1) % 256
+                feats.add("new-search")
+            elif p[0] == "r":
+                slots, gen, occ = {}, 0, 0
+                feats.add("reset")
+            elif p[0] == "z":
+                if int(p[1]) != mb:
+                    mb = int(p[1])
+                    n = mb * 1024 * 1024 // 16
+                    slots, gen, occ = {}, 0, 0
+                feats.add("resize")
+            if oracle:
+                break
+            if p[0] != "i":   # after an insert the count is only known once admission was observed
+                if o_gen != gen:
+                    oracle = f"search counter is {o_gen}, expected {gen} after {op}"
+                elif o_occ != occ:
+                    oracle = f"occupied counter is {o_occ} but {occ} slots are occupied after {op}"
+                elif n and abs(o_hf - (1000 * occ // n)) > 1:
+                    oracle = f"fill indicator {o_hf} but {occ}/{n} slots are occupied"
+                elif not n and o_hf != 0:
+                    oracle = f"fill indicator {o_hf} on an empty table"
+        if oracle:
+            oracle += f" in {req[:200]}"
+        key = req if ("collision" in feats or "stale-age" in feats) else None
+        return corr, oracle, feats | {f"mb={f[1]}"}, key
+
+
+# =============================================================================================
+# C14
+# =============================================================================================
+class C14(Check):
+    pid = "C14"
+    props_module = "TcheranVerif.Props.C14"
+    gen_modules = ("SearchParams",)
+    rule = ("dense grid over (remaining, increment, moves-to-go, overhead, side) incl. 0 ms, sub-200 ms and day-long clocks, "
+            "fixed move times, only-opponent-clock cases, plus random tuples; limits read through hook H2; distinct = "
+            "distinct tuples; non-trivial = a clock is present for the side to move")
+    assumptions = ["f32 rounding inside Duration::mul_f32 is bounded by relative 2^-23 per operation (model is exact; "
+                   "comparison allows 1e-6 relative + 100 ns)",
+                   "second sentence of C14 (returns before the flag falls) is wall-clock behaviour: sampled on the real "
+                   "binary in the thorough tier, not proved"]
+
+    def streams(self):
+        req = os.path.join(self.wd, "limits.req")
+        vlib.gen_requests(["limits", self.seed, self.n(3000, 200000)], req)
+        yield "limits", req
+
+    def judge(self, req, impl, model, spec):
+        f = req.split("\t")
+        side = f[1]
+        mine = f[2] if side == "w" else f[3]
+        mtg, movetime, oh = f[6], f[7], int(f[8])
+        feats = set()
+        if impl in ("panic", "crash"):
+            return ("model does not panic" if model != "panic" else None), f"time allocation crashes on {req!r}", feats, req
+        di, dm = kv(impl), kv(model)
+        si, hi = int(di["soft"]), int(di["hard"])
+        corr = None
+        if model == "panic":
+            corr = "model panics, implementation does not"
+        else:
+            for k in ("soft", "hard"):
+                a, b = int(di[k]), int(dm[k])
+                if abs(a - b) > 1e-6 * max(a, b) + 100:
+                    corr = f"{k} limit {a} ns vs model {b} ns on {req!r}"
+        oracle = None
+        clocks = f[2] != "-" or f[3] != "-"
+        key = None
+        if clocks:
+            if mine == "-":
+                feats.add("own-clock-missing")
+                if hi != 0 or si != 0:
+                    oracle = f"limits {si}/{hi} although the side to move has no clock: {req!r}"
+            else:
+                rem = int(mine) * 1_000_000
+                ohn = oh * 1_000_000
+                feats.add("clock")
+                key = req
+                if si > hi:
+                    oracle = f"soft limit {si} exceeds hard limit {hi}: {req!r}"
+                elif 2 * ohn <= rem and (mtg == "-" or int(mtg) >= 1):
+                    bound = (rem - ohn) / 2
+                    if hi > bound * (1 + 1e-6) + 100:
+                        oracle = f"hard limit {hi} ns exceeds half of the remaining time after overhead ({bound:.0f} ns): {req!r}"
+                else:
+                    feats.add("outside-precondition")
+        elif movetime != "-":
+            feats.add("movetime")
+            mt = int(movetime) * 1_000_000
+            if si != mt or hi != mt:
+                oracle = f"fixed move time {mt} ns not used as given ({si}/{hi}): {req!r}"
+        return corr, oracle, feats, key
+
+
+# =============================================================================================
+# C16
+# =============================================================================================
+class C16(Check):
+    pid = "C16"
+    props_module = "TcheranVerif.Props.C16"
+    gen_modules = ("EvalParams",)
+    rule = ("positions (corpus, playouts, placements, and 'heavy' ones with up to nine queens a side) each paired with its "
+            "colour-mirrored twin; blend: grid + random (mg, eg, phase) with phase up to far beyond 24; distinct = distinct "
+            "requests; non-trivial = position is not colour-symmetric to itself / phase not in {0, 24}")
+
+    def streams(self):
+        req = os.path.join(self.wd, "eval.req")
+        vlib.gen_requests(["eval", self.seed, self.n(3000, 120000), self.corpus_file("positions.fen")], req)
+        yield "eval", req
+
+    def judge(self, req, impl, model, spec):
+        f = req.split("\t")
+        corr = None if impl == model else f"evaluation differs from the model on {req!r}: impl {impl} model {model}"
+        feats = {f[0]}
+        oracle = None
+        key = None
+        if impl in ("panic", "crash"):
+            return corr, f"evaluation crashes (overflow) on {req!r}", feats, req
+        if f[0] == "evalpair":
+            d = kv(impl)
+            a, b = int(d["a"]), int(d["b"])
+            if a != b:
+                oracle = f"evaluation {a} but colour-mirrored twin evaluates to {b}: {f[1]}"
+            elif not (-31900 < a < 31900):
+                oracle = f"evaluation {a} is outside the non-mate score range: {f[1]}"
+            if f[1] != f[2]:
+                key = f[1]
+        else:
+            mg, eg, ph = int(f[1]), int(f[2]), int(f[3])
+            v = int(impl.split(" ")[0])
+            if not (min(mg, eg) <= v <= max(mg, eg)):
+                oracle = f"blend of mg={mg} eg={eg} at phase {ph} is {v}, outside [{min(mg, eg)}, {max(mg, eg)}]"
+            if ph > 24:
+                feats.add("phase>24")
+            if ph not in (0, 24):
+                key = req
+        return corr, oracle, feats, key
+
+
+# =============================================================================================
+# C20
+# =============================================================================================
+class C20(Check):
+    pid = "C20"
+    props_module = "TcheranVerif.Props.C20"
+    gen_modules = ("SearchParams",)
+    rule = ("all non-e.p. captures of positions from the corpus (incl. the repo's own SEE test positions), playouts, "
+            "placements and like-piece templates, each with its colour-mirrored twin; distinct = distinct (position, capture); "
+            "non-trivial = target defended")
+
+    def streams(self):
+        req = os.path.join(self.wd, "see.req")
+        vlib.gen_requests(["see", self.seed, self.n(1500, 60000), self.corpus_file("positions.fen")], req)
+        yield "see", req
+
+    def judge(self, req, impl, model, spec):
+        f = req.split("\t")
+        corr = None if impl == model else f"SEE differs from the model in {f[1]}"
+        feats = set()
+        if impl in ("panic", "crash"):
+            return corr, f"SEE crashes in {f[1]}", feats, None
+        items = dict(x.split("=") for x in impl.split()) if impl else {}
+        sp = dict(x.split("=") for x in spec.split()) if spec not in ("-", "") else {}
+        oracle = None
+        if corr is None and model != impl:
+            corr = "differs"
+        for mv, v in items.items():
+            a, b = v.split("/")
+            self.distinct.add((f[1], mv)) if False else None
+            if a != b and not oracle:
+                oracle = f"SEE verdict for {mv} is {a} but {b} for the colour-mirrored position: {f[1]}"
+            s = sp.get(mv)
+            if not s or s == "?":
+                continue
+            sv, tie, undef, vga = s.split(":")
+            if undef == "1":
+                feats.add("undefended")
+                if a != "1" and not oracle:
+                    oracle = f"capture {mv} of an undefended man judged unfavourable: {f[1]}"
+            else:
+                feats.add("defended")
+                self.distinct.add((f[1], mv))
+            if vga == "1" and a != "1" and not oracle:
+                oracle = f"capture {mv} of a man worth at least the capturer judged unfavourable: {f[1]}"
+            if tie == "0":
+                feats.add("tie-free")
+                if a != sv and not oracle:
+                    oracle = f"SEE verdict {a} for {mv} but the swap list gives {sv} (no tie among attackers): {f[1]}"
+            else:
+                feats.add("tie")
+        if set(items) != set(sp) and sp and not oracle:
+            corr = corr or "capture list differs from the rules"
+        return corr, oracle, feats, None
+
+
+# =============================================================================================
+# C18
+# =============================================================================================
+class C18(Check):
+    pid = "C18"
+    props_module = "TcheranVerif.Props.C18"
+    rule = ("every legal move of positions from the corpus, playouts, placements, e.p./castling/promotion templates and "
+            "like-piece constellations (2-5 knights/rooks/queens/bishops of one colour); SAN written, compared with the "
+            "FIDE specification, checked injective within the position and read back; distinct = distinct (position, move); "
+            "non-trivial = move needs disambiguation, is a capture, promotion, castling or gives check")
+
+    def streams(self):
+        req = os.path.join(self.wd, "san.req")
+        vlib.gen_requests(["san", self.seed, self.n(1500, 60000), self.corpus_file("positions.fen")], req)
+        yield "san", req
+
+    def judge(self, req, impl, model, spec):
+        f = req.split("\t")
+        fen = f[1]
+        corr = None if impl == model else f"SAN differs from the model in {fen}"
+        feats = set()
+        if impl in ("panic", "crash"):
+            return corr, f"SAN crashes in {fen}", feats, None
+        items = [x.split("=", 1) for x in impl.split()] if impl else []
+        sp = dict(x.split("=", 1) for x in spec.split()) if spec not in ("-", "") else {}
+        oracle = None
+        seen = {}
+        for mv, rest in items:
+            text, back = rest.rsplit("=", 1) if rest.count("=") >= 1 else (rest, "")
+            want = sp.get(mv)
+            nontrivial = False
+            if want is not None:
+                if "x" in want or "=" in want or "O-O" in want or "+" in want:
+                    nontrivial = True
+                body = want.rstrip("+")
+                if len(body) >= 4 and body[0] in "NBRQ" and not body.startswith("O"):
+                    core = body.replace("x", "")
+                    if len(core) >= 4:
+                        feats.add("disambiguated")
+                        nontrivial = True
+            if nontrivial:
+                self.distinct.add((fen, mv))
+            if oracle:
+                continue
+            if text == "panic":
+                oracle = f"SAN writer crashes on {mv} in {fen}"
+            elif want is not None and text != want:
+                oracle = f"SAN of {mv} is {text!r}, standard is {want!r}, in {fen}"
+            elif text in seen:
+                oracle = f"moves {seen[text]} and {mv} are both written {text!r} in {fen}"
+            elif back != mv:
+                oracle = f"reading {text!r} back gives {back} instead of {mv} in {fen}"
+            seen[text] = mv
+        if sp and set(m for m, _ in items) != set(sp) and not oracle:
+            corr = corr or "move list differs from the rules"
+        return corr, oracle, feats, None
+
+
+# =============================================================================================
+# C10
+# =============================================================================================
+class C10(Check):
+    pid = "C10"
+    props_module = "TcheranVerif.Props.C10"
+    gen_modules = ("SearchParams",)
+    rule = ("positions reached by a real previous move (so a counter move applies), hash move = a legal move or none, "
+            "killers / counter move drawn from: legal quiets, legal captures, moves legal only in the parent position, "
+            "junk, none, and deliberately equal to each other or to the hash move; history filled through add_bonus_for; "
+            "every fourth request uses the captures-only picker; distinct = distinct requests; non-trivial = a remembered "
+            "move is present")
+
+    def streams(self):
+        req = os.path.join(self.wd, "picker.req")
+        vlib.gen_requests(["picker", self.seed, self.n(2500, 100000), self.corpus_file("positions.fen")], req)
+        yield "picker", req
+
+    def judge(self, req, impl, model, spec):
+        f = req.split("\t")
+        corr = None if impl == model else f"picker stream differs from the model (order included): impl {impl[:150]} model {model[:150]}"
+        feats = set()
+        loud = f[9] == "1"
+        feats.add("loud" if loud else "full")
+        if f[3] != "-":
+            feats.add("hash")
+        if f[4] != "-" or f[5] != "-":
+            feats.add("killer")
+        if f[4] != "-" and f[4] == f[5]:
+            feats.add("equal-killers")
+        if f[6] != "-":
+            feats.add("counter")
+        if f[3] != "-" and f[3] in (f[4], f[5], f[6]):
+            feats.add("hash=remembered")
+        if impl in ("panic", "crash") or impl.startswith("runaway"):
+            return corr, f"move picker crashes or does not terminate: {req[:300]}", feats, req
+        m = re.match(r"legal=\[(.*?)\] must=\[(.*?)\]", spec)
+        if not m:
+            return corr or "no spec", None, feats, None
+        legal, must = m.group(1).split(), m.group(2).split()
+        stream = impl.split()
+        oracle = None
+        dup = sorted(x for x in set(stream) if stream.count(x) > 1)
+        if dup:
+            oracle = f"picker yields {dup} more than once"
+        elif set(stream) - set(legal):
+            oracle = f"picker yields moves that are not legal here: {sorted(set(stream) - set(legal))}"
+        elif set(must) - set(stream):
+            oracle = f"picker never yields {sorted(set(must) - set(stream))}"
+        if oracle:
+            oracle += f" for {req[:400]}"
+        key = req if (feats - {"loud", "full"}) else None
+        return corr, oracle, feats, key
+
+
+REGISTRY = {c.pid: c for c in [C01, C02, C03, C06, C07, C10, C11, C14, C15, C16, C18, C19, C20]}
